@@ -1,6 +1,7 @@
 package transform
 
 import (
+	"fmt"
 	"reflect"
 
 	"github.com/vimeo/dials/parse"
@@ -45,8 +46,12 @@ func (*StringCastingMangler) Unmangle(sf reflect.StructField, vs []FieldValueTup
 	switch sf.Type.Kind() {
 	case reflect.Slice, reflect.Map:
 		castTo = sf.Type
-	default:
+	case reflect.Ptr, reflect.Array, reflect.Chan:
 		castTo = sf.Type.Elem()
+	default:
+		// Not pointerified: Pointerify does not reach the fields of a struct
+		// behind a pointer to a pointer (**T), and Type.Elem panics for them.
+		return reflect.Value{}, fmt.Errorf("cannot cast a string to field %q of type %s: expected a pointer, slice or map type", sf.Name, sf.Type)
 	}
 
 	parsed, parseErr := parse.String(str, castTo)
